@@ -1,8 +1,10 @@
 //! Correspondence harness: drives the real selen code, writes protocol lines
 //! (`<suite>.ops`), its own results (`<suite>.impl`), oracle verdicts
 //! (`<suite>.oracle`) and the input distribution (`<suite>.stats.json`).
+mod api;
 mod core;
 mod engine;
+mod limits;
 mod out;
 mod rng;
 mod ss;
@@ -34,6 +36,9 @@ fn main() {
         "views-exh" => core::suite_views_exhaustive(&mut out, arg(&args, "--universe", "2").parse().unwrap(), arg(&args, "--bound", "8").parse().unwrap()),
         "prune-exh" => core::suite_prune_exhaustive(&mut out, arg(&args, "--universe", "2").parse().unwrap(), arg(&args, "--shard", "0").parse().unwrap(), arg(&args, "--shards", "1").parse().unwrap()),
         "engine" => engine::suite(&mut out, seed, count),
+        "api" => api::suite(&mut out, seed, count),
+        "limits" => limits::suite(&mut out, seed, count),
+        "limits-deep" => limits::suite_deep(&mut out, seed, count),
         "replay" => {
             // re-run the ops of a file verbatim (used by --replay)
             let path = arg(&args, "--ops", "");
@@ -73,6 +78,8 @@ fn replay(out: &mut Out, path: &str) {
                 core::replay_line(&mut sc, out, line);
             }
             engine::replay_line(&mut ec, out, line);
+        } else if eng && w == "limit" {
+            limits::replay_line(&ec, out, line);
         } else if w == "st.var" || w == "prune" || w == "ctx.min" || w == "ctx.max" {
             core::replay_line(&mut sc, out, line);
         } else if w == "ss.new" || w == "ss.unchecked" || w == "ss.values" {
